@@ -24,6 +24,7 @@ func TestMain(m *testing.M) {
 		"(1) complete cross product: each of the 15 field builtins x each argument shape its checker accepts (identifier, back-quoted identifier, attribute expression, string literal, `_`; optional arguments present/absent) x subject situation {script variable of that name, field, tag, variable and point key, absent} x subject value of every type (nil, bool, int, float, strings incl. empty/blank/url-escaped/invalid escapes/JSON, list, map), each on a point with unrelated keys; (2) random compositions of 2..6 builtin calls interleaved with assignments. Oracle: reference model of each builtin written from fn.md (subject lookup: variable first, then point, `_` = message, get_key/rename read the point only; computed result; destination field / existing tag stays tag / measurement / stdout / return value); compared: the whole final point (measurement, tags, fields with Go types, time unchanged - the frame condition), captured standard output, value returned to the script, error presence. Non-trivial: the subject is not a plain string field called message (variable shadows key, tag destination, `_`, non-string subject, absent subject, data error); distinct by (builtin, shape, situation, value kind).",
 		"string conversions and the cast table use the primitives the reference names (spf13/cast, fmt, strings, regexp, net/url, encoding/json): trusted",
 		"printf output is captured by swapping os.Stdout for a file in-process")
+	sem.Quiet = func(f func()) { captured(f) }
 	code := m.Run()
 	evid.Flush(code == 0)
 	os.Exit(code)
